@@ -39,16 +39,28 @@ def check_helper(ctx, c, name, ob, rb):
     n = ob.argc  # log_as is the last parameter
     me = [(bb, t) for bb, t in rb.calls() if t["call"]["name"] == "map_err" and "Result" in t["call"]["def"]]
     dec = [(bb, t) for bb, t in rb.calls() if t["call"]["name"] in ("decode", "deserialize") and (t["call"].get("trait") or "").startswith("conjure_http::server::")]
-    if len(me) != 1 or len(dec) != 1:
-        ctx.violation("R19.1", rb.loc(), f"{name}|shape", f"{name}: expected one decoder call and one map_err, found {len(dec)} / {len(me)}")
+    if not me or not dec:
+        ctx.violation("R19.1", rb.loc(), f"{name}|shape", f"{name}: expected a decoder call whose error is mapped, found {len(dec)} decoder calls / {len(me)} map_err")
         return
     vt = dt.value_tracer(rb)
-    # the function returns the map_err result unchanged
-    ret_ok = place_local(me[0][1]["dest"]) == 0 or c06_returns(rb, me[0][0])
-    ctx.check(ret_ok and dt.derives_from_call(rb, me[0][1]["args"][0], dec[0][0], vt), "R19.1", rb.loc(), f"{name}|ok-untouched",
-              f"{name}: must return decoder(...).map_err(..) unchanged (the Ok value of the decoder is returned as is)", instance=f"{name}: returns decode(..).map_err(f)")
+    # every decoder result leaves the helper only through a map_err that tags it, and that result is returned unchanged
+    for di, (dbb, dt_) in enumerate(sorted(dec, key=lambda x: x[1]["ln"])):
+        mine = [(mbb, mt) for mbb, mt in me if dt.derives_from_call(rb, mt["args"][0], dbb, vt)]
+        direct = place_local(dt_["dest"]) == 0 or (not mine and c06_returns(rb, dbb))
+        ok = len(mine) == 1 and not direct and (place_local(mine[0][1]["dest"]) == 0 or c06_returns(rb, mine[0][0]))
+        ctx.check(ok, "R19.1", rb.loc(dt_["ln"]), f"{name}|ok-untouched|decode#{di}",
+                  f"{name}: the result of this decoder call must be returned as decoder(...).map_err(tag) and in no other way" + (" — it is returned directly, so a decoding failure on this path does not name the argument" if direct else ""),
+                  instance=f"{name}: returns decode(..).map_err(f) (decoder call #{di})")
+        for mbb, mt in mine:
+            check_tagging(ctx, c, name, rb, n, mt, di)
+    for mbb, mt in me:
+        if not any(dt.derives_from_call(rb, mt["args"][0], dbb, vt) for dbb, _ in dec):
+            ctx.violation("R19.1", rb.loc(mt["ln"]), f"{name}|stray-map-err", f"{name}: a map_err that does not receive a decoder result")
+
+
+def check_tagging(ctx, c, name, rb, n, me_t, di):
     # the closure
-    src = Tracer(rb).sources(me[0][1]["args"][1])
+    src = Tracer(rb).sources(me_t["args"][1])
     aggs = [s for s in src if s[0] == "agg"]
     if len(aggs) != 1:
         ctx.violation("R19.1", rb.loc(), f"{name}|closure", f"{name}: map_err argument is not a closure literal")
@@ -97,7 +109,7 @@ def check_helper(ctx, c, name, ob, rb):
                 good = tr.root_locals(cap_op) == {n}
         errsrc = Tracer(clo).root_locals(t["args"][0])
         good = good and errsrc == {2} and (place_local(t["dest"]) == 0)
-    ctx.check(good, "R19.1", clo.loc(), f"{name}|param-name",
+    ctx.check(good, "R19.1", clo.loc(), f"{name}|param-name" + (f"|decode#{di}" if di else ""),
               f"{name}: the decoder's error must be returned as e.with_safe_param(\"param\", log_as) with log_as being the helper's own last parameter",
               instance=f"{name}: Err(e) -> e.with_safe_param(\"param\", log_as)")
 
